@@ -152,6 +152,29 @@ def rr_rules(ctx, A):
     P = ctx.prog
     where = loc(rr.span)
     calls = rp_calls(A, rr)
+    # a padding wrapper on the accumulator — fn push_padding(&mut self, registry, n) { self.push(registry, Region::unnamed_field(
+    # registry.padding_type(n))) } — counts as a push of that padding region with amount = the argument passed for n
+    for w in P.fns.values():
+        if w.kind == 'Closure' or w.id == A['RP'].id or not w.raw.get('inputs') or w.raw['inputs'][0] != A['RP'].raw['inputs'][0]:
+            continue
+        wc = rp_calls(A, w)
+        wx = w.exits()
+        if len(wc) != 1 or not wx or not all(unreachable_without(w, x['block'], {wc[0]['block']}) for x in wx):
+            continue
+        if not all(strip(x['expr']) == strip(w.expr_of_call(wc[0]['term'])) for x in wx):
+            continue
+        reg = strip(w.expr_of_operand(wc[0]['term']['args'][2])) if len(wc[0]['term']['args']) > 2 else None
+        if reg is None or not is_call(reg, 'Region::unnamed_field') or not is_call(reg[2][0], 'padding_type'):
+            continue
+        amt = strip(reg[2][0][2][-1])
+        if amt[0] != 'arg':
+            continue
+        for c in rr.calls(lambda r: r['path'] == w.id):
+            args_ = [rr.expr_of_operand(a) for a in c['term']['args']]
+            c2 = dict(c)
+            c2['synth_region'] = subst_args(reg, args_)
+            calls.append(c2)
+    calls.sort(key=lambda c: c['block'])
     ctx.ob(['C01', 'C10'], 'R-ERR', 'RP-calls|count', len(calls) >= 3, 'resolve_regions calls Regions::push at %d sites (floor 3: vftable pointer, padding, field)' % len(calls), where, nontrivial=False)
     gs = guards_of(rr)
     # every push result is checked: is_none(push(..)) => Ok(None)
@@ -163,6 +186,8 @@ def rr_rules(ctx, A):
 
     # classify the push sites by what they push
     def region_arg(c):
+        if c.get('synth_region') is not None:
+            return strip(c['synth_region'])
         return strip(rr.expr_of_operand(c['term']['args'][2])) if len(c['term']['args']) > 2 else None
     pad_addr, pad_tail, field_push, vft_push, other = [], [], [], [], []
     for c in calls:
